@@ -247,40 +247,42 @@ func cmdDump(args []string) {
 }
 
 type workerStats struct {
-	Type          string           `json:"type"`
-	Cold          bool             `json:"cold"`
-	Worker        int              `json:"worker"`
-	Seed          uint64           `json:"seed"`
-	Prop          string           `json:"prop"`
-	Runs          int64            `json:"runs"`
-	Ops           int64            `json:"ops"`
-	NonTrivial    int64            `json:"nontrivial"`
-	Wall          float64          `json:"wall_s"`
-	Sim           rt.Stats         `json:"sim"`
-	Probes        probeCounts      `json:"probes"`
-	Policies      map[string]int64 `json:"policies"`
-	TaskHist      map[int]int64    `json:"tasks_hist"`
-	Aborts        map[string]int64 `json:"aborts"`
-	O1Compared    int64            `json:"o1_compared"`
-	O1Calm        int64            `json:"o1_calm"`
-	O1Distinct    int64            `json:"o1_distinct_keys"`
-	O1Resets      int              `json:"o1_resets"`
-	EqCompared    int64            `json:"eq_compared"`
-	RefCompared   int64            `json:"ref_compared"`
-	EqStates      int              `json:"eq_states"`
-	PointsHit     []int            `json:"points_hit,omitempty"`    // ids of points executed under the scheduler
-	PreemptSites  []int            `json:"preempt_sites,omitempty"` // ids of points at which a preemption fired
-	SetPairs      int              `json:"set_pairs"`
-	SetPairsTotal int              `json:"set_pairs_total"` // size of the (metric set, value, neighbour metric, neighbour value) space per the specification tables
-	RunHash       string           `json:"run_hash"`        // hash over all run hashes: determinism self-test
-	Samples       []*Plan          `json:"samples,omitempty"`
-	Violations    int              `json:"violations"`
-	KnownHits     int64            `json:"known_hits"`
-	DetViolations int              `json:"det_violations"` // runs with a violation from a deterministic oracle (not only the race monitor)
-	RaceErrors    int              `json:"race_errors"`
-	DistinctFile  string           `json:"distinct_file,omitempty"`
-	SigFile       string           `json:"sig_file,omitempty"`
-	PairsFile     string           `json:"pairs_file,omitempty"`
+	Type                 string           `json:"type"`
+	Cold                 bool             `json:"cold"`
+	Worker               int              `json:"worker"`
+	Seed                 uint64           `json:"seed"`
+	Prop                 string           `json:"prop"`
+	Runs                 int64            `json:"runs"`
+	Ops                  int64            `json:"ops"`
+	NonTrivial           int64            `json:"nontrivial"`
+	Wall                 float64          `json:"wall_s"`
+	Sim                  rt.Stats         `json:"sim"`
+	Probes               probeCounts      `json:"probes"`
+	Policies             map[string]int64 `json:"policies"`
+	TaskHist             map[int]int64    `json:"tasks_hist"`
+	Aborts               map[string]int64 `json:"aborts"`
+	O1Compared           int64            `json:"o1_compared"`
+	O1Calm               int64            `json:"o1_calm"`
+	O1Distinct           int64            `json:"o1_distinct_keys"`
+	O1Resets             int              `json:"o1_resets"`
+	EqCompared           int64            `json:"eq_compared"`
+	RefCompared          int64            `json:"ref_compared"`
+	EqStates             int              `json:"eq_states"`
+	PointsHit            []int            `json:"points_hit,omitempty"`    // ids of points executed under the scheduler
+	PreemptSites         []int            `json:"preempt_sites,omitempty"` // ids of points at which a preemption fired
+	SetPairs             int              `json:"set_pairs"`
+	SetPairsTotal        int              `json:"set_pairs_total"` // size of the (metric set, value, neighbour metric, neighbour value) space per the specification tables
+	RunHash              string           `json:"run_hash"`        // hash over all run hashes: determinism self-test
+	Samples              []*Plan          `json:"samples,omitempty"`
+	Violations           int              `json:"violations"`
+	KnownHits            int64            `json:"known_hits"`
+	PersistentGoroutines int64            `json:"persistent_goroutines"`
+	EndedByAbort         string           `json:"ended_by_abort,omitempty"`
+	DetViolations        int              `json:"det_violations"` // runs with a violation from a deterministic oracle (not only the race monitor)
+	RaceErrors           int              `json:"race_errors"`
+	DistinctFile         string           `json:"distinct_file,omitempty"`
+	SigFile              string           `json:"sig_file,omitempty"`
+	PairsFile            string           `json:"pairs_file,omitempty"`
 }
 
 type violationMsg struct {
@@ -374,6 +376,9 @@ func cmdRun(args []string) {
 		res, viol := evalRun(p, int(i), false, cover)
 		st.Runs++
 		st.Ops += int64(p.nOps())
+		if n := int64(rt.Persistent()); n > st.PersistentGoroutines {
+			st.PersistentGoroutines = n
+		}
 		st.Policies[p.Policy]++
 		st.TaskHist[len(p.Tasks)]++
 		if res.AbortWhy != "" {
@@ -452,6 +457,13 @@ func cmdRun(args []string) {
 			if st.Violations >= *maxViol {
 				break
 			}
+		}
+		if res.AbortWhy != "" {
+			// the run was unwound (deadlock, no progress, dead goroutine): the
+			// library's package state may now be inconsistent with its dead
+			// goroutines; this process is finished
+			st.EndedByAbort = res.AbortWhy
+			break
 		}
 	}
 	if *prop == "C14" && len(refQueue) > 0 && st.Violations < *maxViol {
